@@ -1,0 +1,33 @@
+//go:build verif
+
+package decompiler
+
+// Contracts for govc (contract-based deductive verification). Comment-only: this file
+// contributes no declarations and is compiled only with -tags verif.
+
+// ---- disassembler (C10) -------------------------------------------------------------------
+// For an arbitrary byte slice: no index/slice panic, the walk only moves forward (terminates),
+// and the operand table equals the VM's.
+//@ func hasOperand
+//@   modifies nothing
+//@   ensures result == hasOp(op)
+
+//@ func (*Decompiler).readInstruction
+//@   strict
+//@   requires d != nil && 0 <= d.offset && d.offset <= 4611686018427387904
+//@   ensures err == nil ==> old(d.offset) < d.offset && d.offset <= len(d.bytecode) && d.bytecode == old(d.bytecode) && d.codeStart == old(d.codeStart) && d.codeLength == old(d.codeLength)
+//@   ensures err == nil ==> d.offset == old(d.offset) + 1 + ite(hasOp(vm.Opcode(old(d.bytecode[d.offset]))), 4, 0)
+
+//@ func (*Decompiler).readConstant
+//@   strict
+//@   requires d != nil && 0 <= d.offset && d.offset <= len(d.bytecode)
+//@   ensures err == nil ==> old(d.offset) < d.offset && d.offset <= len(d.bytecode) && d.bytecode == old(d.bytecode)
+//@   ensures err != nil ==> d.bytecode == old(d.bytecode)
+
+//@ func (*Decompiler).Decompile
+//@   strict
+//@   requires d != nil
+//@   loop 1 invariant 0 <= d.offset && d.offset <= len(bytecode) && d.bytecode == bytecode && 0 <= i && i <= constCount
+//@   loop 1 decreases constCount - i
+//@   loop 2 invariant 0 <= d.offset && d.offset <= len(bytecode) && d.bytecode == bytecode
+//@   loop 2 decreases len(bytecode) - d.offset
